@@ -178,12 +178,42 @@ def gen_events(args):
     return out
 
 
-def validate(prop, tier, seed, ctx, families, n_quick=480, n_thorough=12000):
+def record_repo_tests(what, tests="tests/"):
+    """run the repository's own tests under harness/pytest_recorder.py; returns (events, stats)"""
+    import subprocess
+    import sys
+    repo = os.environ.get("VERIF_REPO", "/repo")
+    out = os.path.join(T.WORK, "recorded_%s_%d.ndjson" % (what, os.getpid()))
+    for f in (out, out + ".stats"):
+        if os.path.exists(f):
+            os.remove(f)
+    env = dict(os.environ, DIMARRAY_VERIF="1", VERIF_TRACE_OUT=out, VERIF_TRACE_WHAT=what, PYTHONPATH=T.VERIF + os.pathsep + repo)
+    subprocess.run([sys.executable, "-m", "pytest", "-q", "-p", "no:cacheprovider", "-p", "harness.pytest_recorder", "--continue-on-collection-errors", tests],
+                   cwd=repo, env=env, stdout=subprocess.DEVNULL, stderr=subprocess.DEVNULL, timeout=900)
+    if not os.path.exists(out):
+        raise T.TLCError("the recorder produced no trace file")
+    events = [json.loads(l) for l in open(out)]
+    stats = json.load(open(out + ".stats"))
+    os.remove(out)
+    os.remove(out + ".stats")
+    return events, stats
+
+
+def validate(prop, tier, seed, ctx, families, n_quick=480, n_thorough=12000, repo_tests=None):
     """generate events, validate them with TLC, turn rejections into violations of `prop`"""
     n = n_quick if tier == "quick" else n_thorough
     chunks = [(1000 * (seed + 1) + i, n // 16 + 1, families) for i in range(16)]
     with mp.get_context("fork").Pool(16) as pool:
         events = [e for part in pool.map(gen_events, chunks) for e in part]
+    recorded_stats = None
+    if repo_tests:
+        rec, recorded_stats = record_repo_tests(repo_tests)
+        if len(rec) < 20:
+            raise T.TLCError("only %d calls recorded from the repository's tests" % len(rec))
+        for e in rec:
+            e["id"] = 900000000 + e["id"]
+            e["recorded_from_repo_tests"] = True
+        events += rec
     # negative controls: corrupted copies of accepted-looking events must be rejected
     controls = []
     for e in events[:60]:
@@ -195,7 +225,7 @@ def validate(prop, tier, seed, ctx, families, n_quick=480, n_thorough=12000):
     path = os.path.join(T.WORK, "%s_ops.ndjson" % prop)
     with open(path, "w") as f:
         for e in events + controls:
-            f.write(json.dumps(e) + "\n")
+            f.write(json.dumps({k: e[k] for k in ("id", "op", "in", "out")}) + "\n")
     cfg = os.path.join(T.WORK, "%s_ops.cfg" % prop)
     T.write_cfg(cfg, spec="TSpec")
     outp = os.path.join(T.WORK, "%s_ops.out" % prop)
@@ -227,10 +257,11 @@ def validate(prop, tier, seed, ctx, families, n_quick=480, n_thorough=12000):
         clause, expected = rej[e["id"]]
         what = "recorded %s call disagrees with the specification in clause '%s': logged %s, specification %s" % (
             e["op"], clause, json.dumps(e["out"])[:300], json.dumps(expected)[:300])
-        sig = "trace/%s/%s/ndim=%d/%s" % (e["op"], e["in"].get("mode", "-"), len(e["in"]["a"]["dims"]), clause)
+        sig = "%s/%s/%s/ndim=%d/%s" % ("recorded-test" if e.get("recorded_from_repo_tests") else "trace", e["op"], e["in"].get("mode", "-"),
+                                      len(e["in"]["a"]["dims"]), clause)
         ctx.violations.append(dict(what=what, sig=sig, variant="recorded", scenario=dict(trace_event=e)))
     ctx.traces += ok
     ctx.extra["trace_validation"] = dict(events=len(events), accepted=ok, families=families, corrupted_controls_rejected=len(controls),
-                                         max_ndim=4, max_axis_len=5)
+                                         max_ndim=4, max_axis_len=5, repo_tests=recorded_stats)
     if events:
         ctx.samples.append(dict(recorded_event={k: events[0][k] for k in ("op", "in")}))
